@@ -24,7 +24,7 @@ func TestBoundedRequestIsPass(t *testing.T) {
 // no-cache/no-store/private in any letter case; otherwise s-maxage (preferred) or max-age, minus Age.
 func TestBoundedCacheMaxAge(t *testing.T) {
 	ccs := []string{"", "max-age=60", "public, max-age=60", "s-maxage=30, max-age=60", "max-age=60, s-maxage=30", "no-cache", "No-Cache", "NO-STORE, max-age=60",
-		"Private, max-age=60", "max-age=60, PRIVATE", "max-age=0", "s-maxage=0, max-age=60", "max-age=abc", "public", "max-age=60,no-store", "MAX-AGE=60"}
+		"Private, max-age=60", "max-age=60, PRIVATE", "max-age=0", "s-maxage=0, max-age=60", "max-age=abc", "public", "max-age=60,no-store", "MAX-AGE=60", "max-age=60;;private", "public;;no-store;;max-age=60", "max-age=60;;s-maxage=30"}
 	cookies := [][]string{nil, {"a=b"}, {""}, {"", "a=b"}, {"a=b", "c=d"}}
 	ages := []string{"", "0", "10", "100", "x"}
 	n := 0
@@ -33,7 +33,10 @@ func TestBoundedCacheMaxAge(t *testing.T) {
 			for _, age := range ages {
 				h := http.Header{}
 				if cc != "" {
-					h.Set("Cache-Control", cc)
+					// a value with ";;" stands for a header sent on two lines
+					for _, line := range strings.Split(cc, ";;") {
+						h.Add("Cache-Control", line)
+					}
 				}
 				for _, c := range ck {
 					h.Add("Set-Cookie", c)
@@ -42,6 +45,7 @@ func TestBoundedCacheMaxAge(t *testing.T) {
 					h.Set("Age", age)
 				}
 				got := getCacheMaxAge(h)
+				cc = strings.ReplaceAll(cc, ";;", ",")
 				lower := strings.ToLower(cc)
 				forbidden := len(ck) > 0 || cc == "" || strings.Contains(lower, "no-cache") || strings.Contains(lower, "no-store") || strings.Contains(lower, "private")
 				if forbidden {
@@ -68,7 +72,7 @@ func TestBoundedCacheMaxAge(t *testing.T) {
 			}
 		}
 	}
-	t.Logf("BOUNDED getCacheMaxAge: %d header combinations (16 Cache-Control values in mixed case x 5 Set-Cookie lists x 5 Age values)", n)
+	t.Logf("BOUNDED getCacheMaxAge: %d header combinations (19 Cache-Control values in mixed case, some split over several header lines, x 5 Set-Cookie lists x 5 Age values)", n)
 }
 
 func leadingInt(s string) int {
